@@ -38,6 +38,14 @@ def forced(g, i):
         u = r.choice([("partial", ("ref", "Base", [])), ("required", ("ref", "Base", [])), ("pick", ("ref", "Base", []), r.sample(["a", "b", "c"], 2)),
                       ("omit", ("ref", "Base", []), r.sample(["a", "b", "c"], 1)), ("keyof", ("ref", "Base", [])), ("index", ("ref", "Base", []), r.choice(["a", "b", "c"]))])
         return [("alias", "Base", [], base), ("alias", "T", [], u)], [("T", ("ref", "T", [])), ("Base", ("ref", "Base", []))]
+    if k == 3 and (i // 8) % 2 == 1:
+        # an interface that re-declares inherited properties: an optional one made required, a union narrowed to one member
+        t1, t2 = leaf(), leaf()
+        a = ("interface", "A", [], [("id", False, ("str",)), ("nick", True, t1), ("w", False, ("union", [t2, ("null",)]))])
+        own = [("nick", False, t1)] + ([("w", False, t2)] if r.random() < 0.5 else []) + ([("b", r.random() < 0.5, leaf())] if r.random() < 0.5 else [])
+        b = ("interface", "B", ["A"], own)
+        c = ("alias", "C", [], ("obj", [("x", False, ("ref", "B", [])), ("l", False, ("arr", ("ref", "B", [])))], None))
+        return [a, b, c], [("B", ("ref", "B", [])), ("C", ("ref", "C", [])), ("A", ("ref", "A", []))]
     if k == 3:
         a = ("interface", "A", [], [("a", False, leaf()), ("k", False, ("str",))])
         b = ("interface", "B", ["A"], [("b", r.random() < 0.5, leaf())])
